@@ -75,9 +75,12 @@ func newGameModel(c *Ctx, rule string) *gameModel {
 				}
 			}
 			if call, ok := ins.(*ssa.Call); ok {
-				if f := call.Call.StaticCallee(); f != nil && f.Signature.Recv() != nil && !inFamily[f] && c.P.IsRepoFunc(f) {
+				// the exact re-count: (board, node, colour, limit) -> int, as a method of the board or as a
+				// function taking the board first
+				if f := call.Call.StaticCallee(); f != nil && !inFamily[f] && c.P.IsRepoFunc(f) && len(f.Params) == 4 {
 					res := f.Signature.Results()
-					if res.Len() == 1 && types.Identical(res.At(0).Type(), types.Typ[types.Int]) && f.Signature.Params().Len() == 3 {
+					first := namedOf(f.Params[0].Type())
+					if res.Len() == 1 && types.Identical(res.At(0).Type(), types.Typ[types.Int]) && first != nil && g.boardT != nil && first.Obj() == g.boardT.Obj() {
 						g.identCount = f
 					}
 				}
